@@ -321,6 +321,26 @@ def compare_views(store, model, events, ids, epic=""):
     return None
 
 
+def bytes_diff(model, m, appended):
+    """the bytes an appending command added to the log vs the bytes the model's line encoder (ErgoModel.Codec.encodeEvent) gives for the events
+    the model's command decided to write, each under the envelope time stamp of the real line; None = identical"""
+    evs = [e for w in m.get("writes", []) if w["w"] == "append" for e in w["events"]]
+    lines = appended.split(b"\n")[:-1]
+    if len(lines) != len(evs) or not appended.endswith(b"\n") and appended:
+        return None if not evs and not appended else "bytes: %d lines appended, the model writes %d events" % (len(lines), len(evs))
+    try:
+        ets = [json.loads(l)["ts"] for l in lines]
+    except Exception:
+        return "bytes: an appended line is not a JSON object with a ts"
+    if not evs:
+        return None
+    want = bytes.fromhex(model.ask({"op": "encode", "events": evs, "ets": ets})["hex"])
+    if want != appended:
+        k = next((i for i in range(min(len(want), len(appended))) if want[i] != appended[i]), min(len(want), len(appended)))
+        return "bytes: the appended lines differ from the model's encoding at byte %d: real …%r model …%r" % (k, appended[max(0, k - 30):k + 30], want[max(0, k - 30):k + 30])
+    return None
+
+
 def run_and_compare(store, model, req, agent="", po=None, json_out=True, pre_graph=None):
     """Run one mutating command for real and in the model. Returns a record with `diff` (None = agree)."""
     pre = store.graph() if pre_graph is None else pre_graph
@@ -355,6 +375,9 @@ def run_and_compare(store, model, req, agent="", po=None, json_out=True, pre_gra
     elif common.canon(mlog) != common.canon(qe):
         from .fndiff import first_difference
         rec["diff"] = "log after: " + str(first_difference(qe, mlog))
+    elif (r["exit"] == 0 and req["cmd"] not in ("compact", "plan") and pre_bytes.endswith(b"\n") and post_bytes.startswith(pre_bytes)
+          and (bd := bytes_diff(model, m, post_bytes[len(pre_bytes):])) is not None):
+        rec["diff"] = bd
     elif r["exit"] == 0 and json_out and m.get("reply") is not None:
         got = canon_reply(req, r["stdout"])
         if common.canon(got) != common.canon(m["reply"]):
